@@ -403,6 +403,9 @@ func (ctx *_builtinJSON_stringifyContext) ja(array *Object) {
 	length := toLength(array.self.getStr("length", nil))
 	if length == 0 {
 		ctx.buf.WriteString("[]")
+		if ctx.gap != "" {
+			ctx.indent = stepback
+		}
 		return
 	}
 
@@ -484,8 +487,10 @@ func (ctx *_builtinJSON_stringifyContext) jo(object *Object) {
 		if ctx.gap != "" {
 			ctx.buf.WriteByte('\n')
 			ctx.buf.WriteString(stepback)
-			ctx.indent = stepback
 		}
+	}
+	if ctx.gap != "" {
+		ctx.indent = stepback
 	}
 	ctx.buf.WriteByte('}')
 }
